@@ -309,6 +309,10 @@ Cause(g, e, r, A, O, h0) ==
      THEN (IF g = "C12_Mask" /\ r.mask \in {1, 2} /\ ~r.mbr /\ e.prl = "rm"
            THEN "KF_PRLRouterFirst"       \* the client's parameter request list puts the router before the mask
            ELSE "none")
+     ELSE IF g \in {"C11_NoDoubleAck", "C11_NoOfferOfAcked"} /\ a # NoA
+             /\ \E j \in CIDs \ Holders(e, r, A) : \E b \in O[j].ever : b.ip = a
+     THEN "KF_StaleLeaseShadows"      \* an ended lease keeps its address; findByIP returns the first match in map order,
+                                      \* so the stale free lease can hide the lease that holds the address now
      ELSE IF conflict /\ a # NoA /\ (\/ (e.kind = "discover" /\ O[k].offer = a /\ O[k].old /\ AIp(A, k) # a /\ ~O[k].lx)   \* never acknowledged: the tick freed it
                                      \/ (e.kind = "discover" /\ O[k].offer # a /\ a \in O[k].offd /\ AIp(A, k) # a /\ O[k].last # a)
                                      \/ a \in O[k].stl
@@ -318,10 +322,6 @@ Cause(g, e, r, A, O, h0) ==
                                      \/ \E j \in Holders(e, r, A) : a \in O[j].dup
                                      \/ (r.t = "offer" /\ (~had \/ (O[k].offer = a /\ O[k].old)) /\ \E j \in CIDs \ {k} : O[j].offer = a /\ ~(O[j].old /\ ~O[j].lx)))
      THEN "KF_OfferNotReserved"       \* handed out while a fresh OFFER of it to another client was outstanding
-     ELSE IF g \in {"C11_NoDoubleAck", "C11_NoOfferOfAcked"} /\ a # NoA
-             /\ \E j \in CIDs \ Holders(e, r, A) : \E b \in O[j].ever : b.ip = a
-     THEN "KF_StaleLeaseShadows"      \* an ended lease keeps its address; findByIP returns the first match in map order,
-                                      \* so the stale free lease can hide the lease that holds the address now
      ELSE IF g = "C11_NotOthersTracked" /\ had
      THEN "KF_SessionNotRechecked"    \* re-offer / re-acknowledgement of k's address does not consult the session again
      ELSE IF g = "C11_NotReserved" /\ a = Net2Lo /\ a # 0 /\ had
